@@ -1941,7 +1941,23 @@ check_projdata(Result& r, ProjData& pd, const Input& in, const std::string& entr
   if (pdi.get_min_segment_num() > pdi.get_max_segment_num() || pdi.get_min_view_num() > pdi.get_max_view_num()
       || pdi.get_min_tangential_pos_num() > pdi.get_max_tangential_pos_num() || pdi.get_min_tof_pos_num() > pdi.get_max_tof_pos_num())
     {
-      r.viol("accepted-projdata-with-empty-range:" + entry,
+      // key: entry point, which range is empty, and - the one input class known so far (known_findings.json) - whether the header
+      // assigns 'matrix size [1]' more than once (a first, damaged line that is still taken as that keyword, then a well-formed one)
+      const char* which = pdi.get_min_segment_num() > pdi.get_max_segment_num()                 ? "segments"
+                          : pdi.get_min_view_num() > pdi.get_max_view_num()                     ? "views"
+                          : pdi.get_min_tangential_pos_num() > pdi.get_max_tangential_pos_num() ? "tangential"
+                                                                                                : "tof";
+      int ms1 = 0;
+      for (auto& l : split_lines(in.text))
+        {
+          std::string t;
+          for (unsigned char ch : l)
+            if (ch != ' ' && ch != '\t' && ch != '!' && ch != '_')
+              t += static_cast<char>(std::tolower(ch));
+          if (t.compare(0, 13, "matrixsize[1]") == 0)
+            ++ms1;
+        }
+      r.viol("accepted-projdata-with-empty-range:" + entry + ":" + which + (ms1 > 1 ? ":matrix-size-1-assigned-more-than-once" : ""),
              vf::fmt("segments %d..%d views %d..%d tangential %d..%d tof %d..%d", pdi.get_min_segment_num(), pdi.get_max_segment_num(),
                      pdi.get_min_view_num(), pdi.get_max_view_num(), pdi.get_min_tangential_pos_num(), pdi.get_max_tangential_pos_num(),
                      pdi.get_min_tof_pos_num(), pdi.get_max_tof_pos_num())
